@@ -55,21 +55,21 @@ extern int mpt_parse_node(MPT_STRUCT(node) *root, MPT_STRUCT(parser_context) *pa
 	
 	/* create new nodes */
 	if (!(root->children)) {
-		root->children = conf.children;
+		root->children = curr = conf.children;
 	}
 	/* add to existing */
-	else if (conf.children) {
+	else if ((curr = conf.children)) {
 		/* move/set non-present entries */
 		mpt_node_move(&root->children, conf.children);
 		/* clear remaining/superseeded entries */
 		mpt_node_clear(root);
 		/* replave tree with merged data */
 		root->children = curr = conf.children;
-		/* set parent for moved nodes */
-		while (curr) {
-			curr->parent = root;
-			curr = curr->next;
-		}
+	}
+	/* set parent for new and moved nodes */
+	while (curr) {
+		curr->parent = root;
+		curr = curr->next;
 	}
 	return err;
 }
